@@ -48,7 +48,11 @@ First ==
 
 AnCount == CASE mode = "count+1" -> 4 [] mode = "count-1" -> 2 [] OTHER -> 3
 Usable == Len(NatRd) + delta >= 0
-Msg == HdrEncode(9, {"qr"}, 0, 0, 0, AnCount, 0, 0) \o First \o Sentinel(1) \o Sentinel(2)
+\* a question in front, its QTYPE / QCLASS / unicast bit spread over the record types: specific types, the
+\* five QTYPE specials (IXFR AXFR MAILB MAILA ANY), classes IN / CH / ANY
+QSpecials == <<1, 251, 252, 253, 254, 255, 65, 16>>
+Quest == [name |-> <<<<113>>, La>>, qtype |-> QSpecials[(t % 8) + 1], qclass |-> <<1, 3, 255>>[(t % 3) + 1], unicast |-> (t % 2 = 1)]
+Msg == HdrEncode(9, {"qr"}, 0, 0, 1, AnCount, 0, 0) \o EncQuestion(Quest) \o First \o Sentinel(1) \o Sentinel(2)
 
 \* sanity of the generator itself: the exact variant decodes to three records
 EmptyOK == (mode = "empty" /\ t # 41) => LET d == RefDecode(Msg) IN d.ok /\ d.exact /\ Len(d.pkt.an) = 3 /\ d.end = Len(Msg)
